@@ -628,3 +628,65 @@ Lemma check_rejects_old :
    C34_check cfg0 req0 BStream [1;2;3]%N [true] [mkrt None (Some 503%N); mkrt None (Some 200%N)]
              (map observe_trip ts) res nb) = false.
 Proof. vm_compute. reflexivity. Qed.
+
+(* ---------------------------------------------------------------- the oracle says what the clauses say *)
+
+Lemma listN_eqb_eq : forall a b, listN_eqb a b = true -> a = b.
+Proof.
+  induction a as [|x a IH]; destruct b as [|y b]; cbn [listN_eqb]; intros H; try discriminate; [reflexivity|].
+  apply andb_prop in H. destruct H as [H1 H2]. apply N.eqb_eq in H1. subst. f_equal. auto.
+Qed.
+
+Lemma hdrs_eqb_eq : forall a b, hdrs_eqb a b = true -> a = b.
+Proof.
+  induction a as [|[x1 x2] a IH]; destruct b as [|[y1 y2] b]; cbn [hdrs_eqb]; intros H; try discriminate; [reflexivity|].
+  apply andb_prop in H. destruct H as [H H3]. apply andb_prop in H. destruct H as [H1 H2].
+  apply N.eqb_eq in H1. apply N.eqb_eq in H2. subst. f_equal. auto.
+Qed.
+
+Lemma trips_ok_nth : forall c q b0 os script,
+  trips_ok c q b0 script os = true ->
+  forall i o, nth_error os i = Some o ->
+    trip_ok c q b0 (nth i script default_rt) o = true /\
+    (forall code, r_out (nth i script default_rt) = Some code -> memN code (c_accepted c) = true ->
+                  length os = S i).
+Proof.
+  induction os as [|o1 os IH]; intros script H i o Hn; [destruct i; discriminate|].
+  cbn [trips_ok] in H. apply andb_prop in H. destruct H as [H H3]. apply andb_prop in H. destruct H as [H1 H2].
+  destruct i as [|i]; cbn [nth_error] in Hn.
+  - inversion Hn; subst. rewrite nth_0_hd. split; [exact H1|].
+    intros code Ho Hacc. rewrite Ho, Hacc in H2. destruct os; [reflexivity | discriminate].
+  - destruct (IH (tl script) H3 i o Hn) as [Ha Hb]. rewrite nth_tl in Ha, Hb. split; [exact Ha|].
+    intros code Ho Hacc. cbn [length]. f_equal. eauto.
+Qed.
+
+Theorem check_complete : forall c q kd body bo script os res nb,
+  q_valid q = true ->
+  C34_check c q kd body bo script os res nb = true ->
+  (forall i o, nth_error os i = Some o ->
+     o_method o = q_method q /\ o_url o = q_url q /\ o_hdrs o = q_hdrs q /\ o_extra_same o = true /\
+     o_read o = take_opt (r_read (nth i script default_rt)) (body0 kd body) /\
+     (forall code, r_out (nth i script default_rt) = Some code -> memN code (c_accepted c) = true ->
+                   length os = S i)) /\
+  (forall code, res = ROk code ->
+     exists n, length os = S n /\ r_out (nth n script default_rt) = Some code /\
+               memN code (c_accepted c) = true) /\
+  (count_primary c os <= S (go_prefix bo))%nat /\ (N.to_nat nb <= S (go_prefix bo))%nat.
+Proof.
+  intros c q kd body bo script os res nb Hv H. unfold C34_check in H. rewrite Hv in H.
+  apply andb_prop in H. destruct H as [H Hb]. apply andb_prop in H. destruct H as [Ht Hr].
+  split; [|split].
+  - intros i o Hn. destruct (trips_ok_nth _ _ _ _ _ Ht i o Hn) as [Hk Hlast].
+    unfold trip_ok in Hk.
+    repeat (apply andb_prop in Hk; let H' := fresh "K" in destruct Hk as [Hk H']).
+    apply N.eqb_eq in Hk. apply N.eqb_eq in K3. apply hdrs_eqb_eq in K2. apply listN_eqb_eq in K0.
+    auto 8.
+  - intros code ->. unfold result_ok in Hr.
+    destruct (length os) as [|n] eqn:El; cbn [last_out] in Hr; [discriminate|].
+    destruct (r_out (nth n script default_rt)) as [code'|] eqn:Eo; [|discriminate].
+    apply andb_prop in Hr. destruct Hr as [He Ha]. apply N.eqb_eq in He. subst code'.
+    exists n. auto.
+  - unfold backoff_ok in Hb. apply andb_prop in Hb. destruct Hb as [Hb H3].
+    apply andb_prop in Hb. destruct Hb as [H1 H2].
+    apply Nat.leb_le in H1. apply Nat.leb_le in H3. auto.
+Qed.
